@@ -305,26 +305,9 @@ func (self valSorter) Len() int {
 }
 
 func (self valSorter) Less(i, j int) bool {
-	switch self[i].Type().Kind() {
-	case reflect.String:
-		return strings.Compare(self[i].String(), self[j].String()) < 0
-	case reflect.Int, reflect.Int8, reflect.Int16, reflect.Int32, reflect.Int64:
-		// create() makes map[int64]interface{} for int64 keys
-		return self[i].Int() < self[j].Int()
-	case reflect.Uint, reflect.Uint8, reflect.Uint16, reflect.Uint32, reflect.Uint64:
-		return self[i].Uint() < self[j].Uint()
-	case reflect.Float32, reflect.Float64:
-		return self[i].Float() < self[j].Float()
-	}
-	if i1, ok := self[i].Interface().(fmt.Stringer); ok {
-		i2 := self[j].Interface().(fmt.Stringer)
-		return strings.Compare(i1.String(), i2.String()) < 0
-	}
-	if i1, ok := self[i].Interface().(fmt.Stringer); ok {
-		i2 := self[j].Interface().(fmt.Stringer)
-		return strings.Compare(i1.String(), i2.String()) < 0
-	}
-	panic("not supported")
+	// create() makes map[int64]interface{} for int64 keys, and map[interface{}]interface{}
+	// for every key type it has no map type for
+	return reflectLess(self[i], self[j])
 }
 
 func (self valSorter) Swap(i, j int) {
